@@ -359,6 +359,49 @@ func runMerge1(c *vkit.Case, p mPlan) {
 	}
 }
 
+// Wide calls: 64, 65, 100, 130 inputs (bit masks, fixed-size tables and the like end at 64).
+var wideCounts = []int{63, 64, 65, 66, 100, 130}
+
+func chansMergeWideCase(c *vkit.Case) {
+	if c.R.NViolations() >= maxViolations {
+		return
+	}
+	rnd := c.Rand
+	n := wideCounts[c.Index%len(wideCounts)]
+	p := mPlan{Label: fmt.Sprintf("wide: %d inputs", n), OutCap: vkit.Pick(rnd, []int{0, 0, 4}), ConsPace: vkit.Pick(rnd, []float64{0, 0, 0.15})}
+	for i := 0; i < n; i++ {
+		in := mInput{Mode: modeLive, N: rnd.Intn(4), Cap: vkit.Pick(rnd, []int{0, 0, 1, 2}), Intensity: vkit.Pick(rnd, []float64{0, 0.15, 0.4}), CloseLag: rnd.Intn(2)}
+		if rnd.Bool(0.1) {
+			in.Mode, in.N = modePreclosedEmpty, 0
+		}
+		p.Inputs = append(p.Inputs, in)
+	}
+	runMerge(c, p)
+}
+
+func replicateWideCase(c *vkit.Case) {
+	if c.R.NViolations() >= maxViolations {
+		return
+	}
+	rnd := c.Rand
+	nd := []int{1, 2, 63, 64, 65, 66, 100, 130}[c.Index%8]
+	p := rPlan{Label: fmt.Sprintf("wide: %d destinations, slow receivers", nd), N: rnd.Range(1, 6), SrcCap: vkit.Pick(rnd, []int{0, 1, 4}), SrcMode: modeLive, SrcPace: vkit.Pick(rnd, []float64{0, 0.15, 0.4})}
+	buffered := (c.Index/8)%3 == 2 // a third of the cases: buffered destinations (too small for the source)
+	for d := 0; d < nd; d++ {
+		capd := 0
+		if buffered {
+			capd = rnd.Range(1, 2)
+		} else if rnd.Bool(0.15) {
+			capd = 1
+		}
+		p.DstCaps = append(p.DstCaps, capd)
+		p.DstPace = append(p.DstPace, vkit.Pick(rnd, []float64{0, 0.15, 0.4, 0.8, 1}))
+		p.DstLate = append(p.DstLate, vkit.Pick(rnd, []int{0, 0, 1, 3, 8}))
+	}
+	runReplicate(c, p)
+	c.R.Count("chans.Replicate wide", fmt.Sprintf("%d destinations", nd), 1)
+}
+
 // ---------------------------------------------------------------------------------------------
 // Replicate
 
@@ -371,6 +414,7 @@ type rPlan struct {
 	CloseLag int       `json:"close_lag"`
 	DstCaps  []int     `json:"dst_caps"`
 	DstPace  []float64 `json:"dst_pacing"`
+	DstLate  []int     `json:"dst_starts_reading_after_n_pauses,omitempty"`
 }
 
 func (p rPlan) key() string {
@@ -467,7 +511,16 @@ func runReplicate1(c *vkit.Case, p rPlan) {
 		go producer(gs, clock, src, vals, srcPert, p.CloseLag, &closeCall, &pwg)
 	}
 	for d := 0; d < nd; d++ {
-		go consumer(gs, clock, dsts[d], perts[d], &gots[d], dones[d])
+		late := 0
+		if d < len(p.DstLate) {
+			late = p.DstLate[d]
+		}
+		go func(d, late int) {
+			for i := 0; i < late; i++ {
+				perts[d].Do()
+			}
+			consumer(gs, clock, dsts[d], perts[d], &gots[d], dones[d])
+		}(d, late)
 	}
 	guard, so := guardArgs(so, func() chan<- uint64 { return make(chan uint64) })
 	var repRet atomic.Int64
